@@ -185,7 +185,9 @@ def inductive(ctx):
                              ("consecution", "MC_Lifecycle.tla", ["--init=IndInit", "--inv=IndInv", "--length=1"]),
                              ("deviation", "MC_LifecycleDev.tla", ["--init=IndInit", "--inv=IndInv", "--length=1"])):
         try:
+            os.makedirs(os.path.join(d, "tmp"), exist_ok=True)
             r = subprocess.run(["apalache-mc", "check"] + args + ["--out-dir=" + os.path.join(d, "out"), mod], cwd=d,
+                               env=dict(os.environ, TMPDIR=os.path.join(d, "tmp")),      # (the wrapper's SANY scratch directories)
                                stdout=subprocess.PIPE, stderr=subprocess.STDOUT, text=True, timeout=900)
         except (OSError, subprocess.TimeoutExpired) as e:
             res[label] = "not run: %s" % type(e).__name__
